@@ -7,11 +7,14 @@ package cfgbackend
 // Existence of a key in the configuration store, as a mathematical function of the key: the store is assumed not to
 // change during one resolution (assumption listed in the evidence).
 //@ ghost func E(key string) bool
+// The backend could not answer for this key (Consul unreachable, rate limited, ...): also a function of the key.
+//@ ghost func EE(key string) bool
 
 //@ func (s ROSource) Exists(key string) (ok bool, err error)
 //@   noverify
 //@   pure
-//@   ensures ok == E(key)
+//@   ensures (err != nil) == EE(key)
+//@   ensures !EE(key) ==> ok == E(key)
 
 // ---------------------------------------------------------------------------------------------------------
 // C07: run numbers are unique and strictly increasing.
